@@ -3,8 +3,12 @@ CHECK = {
     "assumptions": ["single failure per request (a second fault during the rollback is outside the statement)",
                     "faults are injected into the storage operations of the request goroutine only; background workers run undisturbed"],
     "units": [
-        unit("leasefaults", "vault", ["vault/c06_test.go", "vault/c04_test.go"], "^TestVerif_C06_",
+        unit("leasefaults", "vault", ["vault/c06_test.go", "vault/c04_test.go"], "^TestVerif_C06_LeaseFaults$",
              quick={"checks": 3, "shards": 1, "cap": 900},
              thorough={"checks": 2, "shards": 16, "cap": 3000}),
+        unit("schedules", "vault", ["vault/c06_test.go", "vault/c06sched_test.go", "vault/c04_test.go"], "^TestVerif_C06_Schedules$",
+             quick={"checks": 150, "shards": 1, "cap": 900},
+             thorough={"checks": 1000, "shards": 16, "cap": 3000},
+             flaky_is_violation=True),
     ],
 }
